@@ -346,6 +346,12 @@ def main(argv):
                     client.stats(*arg)
                 except Exception:
                     pass
+                sent = b"".join(d for c in world.conns for t, d in c.sent if t == ("seq", n))
+                want_ = b"stats" + b"".join(b" " + (a_ if isinstance(a_, bytes) else a_.encode()) for a_ in arg) + b"\r\n"
+                ctx.case(("seq-stats", au, utf8, dnr, pfx, n))
+                if sent != want_:
+                    ctx.violation("stats did not send exactly `stats <arguments>` (its arguments are not keys: no prefix applies to them)",
+                                  {"cfg": {"default_noreply": dnr, "prefix": hx(pfx)}, "arguments": repr(arg), "sent": hx(sent), "intended": hx(want_)}, tags=["sequence", "stats-args"])
                 continue
             r = run_call(client, arg)
             sent = b"".join(d for c in world.conns for t, d in c.sent if t == ("seq", n))
